@@ -267,7 +267,7 @@ def native_stage(pid, mdir, recs, gmap, tier_cfgs, skip_native=False):
 
 def finish_replay_record(pid, rec):
     hsh = hashlib.sha256((rec["harness"] + "|".join(rec["keys"])).encode()).hexdigest()[:8]
-    path = os.path.join(VERIF, "replays", f"{pid}-{short(rec['harness'])}-{hsh}.json")
+    path = os.path.join(os.environ.get("VERIF_REPLAY_DIR", os.path.join(VERIF, "replays")), f"{pid}-{short(rec['harness'])}-{hsh}.json")
     rec["path"] = path
     rec["repo_tree"] = mirror_mod.sha_tree(mirror_mod.REPO)
     R.write_json(path, rec)
@@ -379,7 +379,7 @@ def write_evidence(pid, spec, tier, seed, t0, results, rows, violations, known_h
         "assumptions": spec.get("assumptions", []) + ["trusted base: Kani MIR->GOTO translation, CBMC, CaDiCaL, the harness-side reference models"],
         "wall_s": round(time.time() - t0, 1), "violations": len(violations),
     }
-    R.write_json(os.path.join(VERIF, "evidence", f"{pid}.json"), ev)
+    R.write_json(os.path.join(os.environ.get("VERIF_EVIDENCE_DIR", os.path.join(VERIF, "evidence")), f"{pid}.json"), ev)
 
 
 if __name__ == "__main__":
